@@ -6,8 +6,8 @@ CONSTANTS
   MaxM = 1
   AllowArm = TRUE
   Patched = TRUE
-  MaxOps = 7
-  Mode = "gate"
+  MaxOps = 6
+  Mode = "edge"
 SPECIFICATION MCSpec
 VIEW EdgeView
 CHECK_DEADLOCK FALSE
